@@ -1,36 +1,61 @@
 import OV.Model.C18Partition
-/-! Helper lemma for C18: `partGo` never loses a positional argument. -/
+/-! Helper lemmas for C18: `partGo` never loses a positional argument, and (with placeholders) puts every input at
+the position of its parameter. -/
 namespace OV.C18
 
-theorem partGo_keeps : ∀ (ps : List SigParam) (pos : List String) (kw : List (String × String))
+theorem mem_dropWhile_of_ne {l : List String} {a : String} (h : a ∈ l) (hn : a ≠ "~") :
+    a ∈ l.dropWhile (· = "~") := by
+  induction l with
+  | nil => cases h
+  | cons x xs ih =>
+    simp only [List.dropWhile_cons]
+    split
+    · rename_i hx
+      simp only [List.mem_cons] at h
+      rcases h with rfl | h
+      · exact absurd (by simpa using hx) hn
+      · exact ih h
+    · exact h
+
+theorem mem_stripPh {l : List String} {a : String} (h : a ∈ l) (hn : a ≠ "~") : a ∈ stripPh l := by
+  unfold stripPh
+  rw [List.mem_reverse]
+  exact mem_dropWhile_of_ne (List.mem_reverse.mpr h) hn
+
+theorem partGo_keeps (ph : Bool) : ∀ (ps : List SigParam) (pos : List String) (kw : List (String × String))
     (ins : List String) (attrs : List (String × String)) (I : List String) (A : List (String × String)),
-    partGo ps pos kw ins attrs = .ok (I, A) →
-    (∀ a ∈ pos, a ∈ I ∨ a ∈ A.map (·.2)) ∧ (∀ a ∈ ins, a ∈ I) ∧ (∀ x ∈ attrs, x ∈ A)
-  | [], pos, kw, ins, attrs, I, A, h => by
+    partGo ph ps pos kw ins attrs = .ok (I, A) → (∀ a ∈ pos, a ≠ "~") →
+    (∀ a ∈ pos, a ∈ I ∨ a ∈ A.map (·.2)) ∧ (∀ a ∈ ins, a ≠ "~" → a ∈ I) ∧ (∀ x ∈ attrs, x ∈ A)
+  | [], pos, kw, ins, attrs, I, A, h, _ => by
     simp only [partGo] at h
     split at h
     · rename_i hp
       cases h
       have : pos = [] := by simpa using hp
       subst this
-      exact ⟨by simp, fun a ha => ha, fun x hx => hx⟩
+      refine ⟨by simp, ?_, fun x hx => hx⟩
+      intro a ha hn
+      split
+      · exact mem_stripPh ha hn
+      · exact ha
     · cases h
-  | p :: ps, pos, kw, ins, attrs, I, A, h => by
+  | p :: ps, pos, kw, ins, attrs, I, A, h, hne => by
     simp only [partGo] at h
     split at h
-    · obtain ⟨_, h2, h3⟩ := partGo_keeps ps [] kw (ins ++ pos) attrs I A h
-      exact ⟨fun a ha => Or.inl (h2 a (by simp [ha])), fun a ha => h2 a (by simp [ha]), h3⟩
+    · obtain ⟨_, h2, h3⟩ := partGo_keeps ph ps [] kw (ins ++ pos) attrs I A h (by simp)
+      exact ⟨fun a ha => Or.inl (h2 a (by simp [ha]) (hne a ha)), fun a ha hn => h2 a (by simp [ha]) hn, h3⟩
     · split at h
       · rename_i a rest
+        have hne' : ∀ x ∈ rest, x ≠ "~" := fun x hx => hne x (by simp [hx])
         split at h
-        · obtain ⟨h1, h2, h3⟩ := partGo_keeps ps rest kw (ins ++ [a]) attrs I A h
-          refine ⟨?_, fun x hx => h2 x (by simp [hx]), h3⟩
+        · obtain ⟨h1, h2, h3⟩ := partGo_keeps ph ps rest kw (ins ++ [a]) attrs I A h hne'
+          refine ⟨?_, fun x hx hn => h2 x (by simp [hx]) hn, h3⟩
           intro x hx
           simp only [List.mem_cons] at hx
           rcases hx with rfl | hx
-          · exact Or.inl (h2 x (by simp))
+          · exact Or.inl (h2 x (by simp) (hne x (by simp)))
           · exact h1 x hx
-        · obtain ⟨h1, h2, h3⟩ := partGo_keeps ps rest kw ins (attrs ++ [(p.name, a)]) I A h
+        · obtain ⟨h1, h2, h3⟩ := partGo_keeps ph ps rest kw ins (attrs ++ [(p.name, a)]) I A h hne'
           refine ⟨?_, h2, fun x hx => h3 x (by simp [hx])⟩
           intro x hx
           simp only [List.mem_cons] at hx
@@ -39,16 +64,82 @@ theorem partGo_keeps : ∀ (ps : List SigParam) (pos : List String) (kw : List (
           · exact h1 x hx
       · split at h
         · split at h
-          · obtain ⟨_, h2, h3⟩ := partGo_keeps ps [] kw _ attrs I A h
-            exact ⟨by simp, fun x hx => h2 x (by simp [hx]), h3⟩
-          · obtain ⟨_, h2, h3⟩ := partGo_keeps ps [] kw ins _ I A h
+          · obtain ⟨_, h2, h3⟩ := partGo_keeps ph ps [] kw _ attrs I A h (by simp)
+            exact ⟨by simp, fun x hx hn => h2 x (by simp [hx]) hn, h3⟩
+          · obtain ⟨_, h2, h3⟩ := partGo_keeps ph ps [] kw ins _ I A h (by simp)
             exact ⟨by simp, h2, fun x hx => h3 x (by simp [hx])⟩
         · split at h
-          · obtain ⟨_, h2, h3⟩ := partGo_keeps ps [] kw ins attrs I A h
+          · obtain ⟨_, h2, h3⟩ := partGo_keeps ph ps [] kw ins attrs I A h (by simp)
             exact ⟨by simp, h2, h3⟩
           · split at h
             · cases h
-            · obtain ⟨_, h2, h3⟩ := partGo_keeps ps [] kw ins attrs I A h
-              exact ⟨by simp, h2, h3⟩
+            · split at h
+              · obtain ⟨_, h2, h3⟩ := partGo_keeps ph ps [] kw _ attrs I A h (by simp)
+                exact ⟨by simp, fun x hx hn => h2 x (by simp [hx]) hn, h3⟩
+              · obtain ⟨_, h2, h3⟩ := partGo_keeps ph ps [] kw ins attrs I A h (by simp)
+                exact ⟨by simp, h2, h3⟩
+
+/-! ## with placeholders every input sits at its parameter's position -/
+
+/-- the value each input parameter should receive: the positional argument at its index, else the keyword of its
+    name, else absent (`~`). -/
+def expectedFrom : List SigParam → List String → List (String × String) → List String
+  | [], _, _ => []
+  | _ :: ps, a :: rest, kw => a :: expectedFrom ps rest kw
+  | p :: ps, [], kw => (kwGet kw p.name).getD "~" :: expectedFrom ps [] kw
+
+theorem partGo_attrs_only : ∀ (ps : List SigParam) (pos : List String) (kw : List (String × String))
+    (ins : List String) (attrs : List (String × String)) (I : List String) (A : List (String × String)),
+    (∀ p ∈ ps, p.isInput = false) → partGo true ps pos kw ins attrs = .ok (I, A) → I = stripPh ins
+  | [], pos, kw, ins, attrs, I, A, _, h => by
+    simp only [partGo] at h
+    split at h
+    · cases h; rfl
+    · cases h
+  | p :: ps, pos, kw, ins, attrs, I, A, hp, h => by
+    have hpi : p.isInput = false := hp p (by simp)
+    have hps : ∀ q ∈ ps, q.isInput = false := fun q hq => hp q (by simp [hq])
+    simp only [partGo, hpi, Bool.false_and, Bool.false_eq_true, if_false, Bool.and_false] at h
+    split at h
+    · exact partGo_attrs_only ps _ kw ins _ I A hps h
+    · split at h
+      · exact partGo_attrs_only ps _ kw ins _ I A hps h
+      · split at h
+        · exact partGo_attrs_only ps _ kw ins _ I A hps h
+        · split at h
+          · cases h
+          · exact partGo_attrs_only ps _ kw ins _ I A hps h
+
+theorem partGo_positions : ∀ (ps ats : List SigParam) (pos : List String) (kw : List (String × String))
+    (ins : List String) (attrs : List (String × String)) (I : List String) (A : List (String × String)),
+    (∀ p ∈ ps, p.isInput = true ∧ p.variadic = false) → (∀ p ∈ ats, p.isInput = false) →
+    partGo true (ps ++ ats) pos kw ins attrs = .ok (I, A) → I = stripPh (ins ++ expectedFrom ps pos kw)
+  | [], ats, pos, kw, ins, attrs, I, A, _, hat, h => by
+    simp only [List.nil_append] at h
+    rw [partGo_attrs_only ats pos kw ins attrs I A hat h]
+    simp [expectedFrom]
+  | p :: ps, ats, pos, kw, ins, attrs, I, A, hp, hat, h => by
+    obtain ⟨hpi, hpv⟩ := hp p (by simp)
+    have hps : ∀ q ∈ ps, q.isInput = true ∧ q.variadic = false := fun q hq => hp q (by simp [hq])
+    simp only [List.cons_append, partGo, hpi, hpv, Bool.and_false, Bool.false_eq_true, if_false, if_true,
+      Bool.not_true, Bool.false_and, Bool.true_and] at h
+    cases pos with
+    | cons a rest =>
+      simp only [] at h
+      have := partGo_positions ps ats rest kw (ins ++ [a]) attrs I A hps hat h
+      simpa [expectedFrom, List.append_assoc] using this
+    | nil =>
+      simp only [] at h
+      cases hk : kwGet kw p.name with
+      | some v =>
+        simp only [hk] at h
+        have := partGo_positions ps ats [] kw (ins ++ [v]) attrs I A hps hat h
+        simpa [expectedFrom, hk, List.append_assoc] using this
+      | none =>
+        simp only [hk] at h
+        split at h
+        · cases h
+        · have := partGo_positions ps ats [] kw (ins ++ ["~"]) attrs I A hps hat h
+          simpa [expectedFrom, hk, List.append_assoc] using this
 
 end OV.C18
